@@ -134,42 +134,40 @@ def decode_byte_runs(buf: bytes, g0: int, probe=None):
         rem = n - i
         if rem < 8:
             tb = buf[i:]
-            if runs and runs[-1]["k"] == "D" and patterns.pat(runs[-1]["f"], runs[-1]["o"] + runs[-1]["n"], rem) == tb:
+            pr = probed(tb, g0 + i)
+            if pr is not None:
+                push(pr[0], pr[1], pr[2], rem)
+            elif probe is not None:
+                push("G", 0, 0, rem)  # with a probe, never guess from coinciding bytes
+            elif runs and runs[-1]["k"] == "D" and patterns.pat(runs[-1]["f"], runs[-1]["o"] + runs[-1]["n"], rem) == tb:
                 push("D", runs[-1]["f"], runs[-1]["o"] + runs[-1]["n"], rem)
             elif runs and runs[-1]["k"] == "C" and patterns.cpat(runs[-1]["f"], runs[-1]["o"] + runs[-1]["n"], rem) == tb:
                 push("C", runs[-1]["f"], runs[-1]["o"] + runs[-1]["n"], rem)
+            elif tb.count(0) == rem:
+                push("Z", 0, 0, rem)
             else:
-                pr = probed(tb, g0 + i)
-                if pr is not None:
-                    push(pr[0], pr[1], pr[2], rem)
-                elif tb.count(0) == rem:
-                    push("Z", 0, 0, rem)
-                else:
-                    push("G", 0, 0, rem)
+                push("G", 0, 0, rem)
             break
         w = int.from_bytes(buf[i : i + 8], "little")
         top = w >> 56
         if w == 0:
             rest = buf[i:]
             z = len(rest) - len(rest.lstrip(b"\x00"))
-            if z < len(rest):
-                z -= z % 8
+            z -= z % 8  # a trailing partial word is classified by the tail branch (probe)
             push("Z", 0, 0, z)
             i += z
         elif 1 <= top <= patterns.MAXF:
             f = top - 1
             off = (w & ((1 << 56) - 1)) << 3
             ln = _extend(lambda d, t, f=f, off=off: patterns.pat(f, off + d, t), buf, i)
-            if ln < n - i:
-                ln -= ln % 8
+            ln -= ln % 8  # a trailing partial word is classified by the tail branch (probe)
             push("D", f, off, ln)
             i += ln
         elif top == 0xC0:
             cid = (w >> 24) & 0xFFFFFFFF
             off = ((w & 0xFFFFFF) << 9) + ((g0 + i) & 511)
             ln = _extend(lambda d, t, cid=cid, off=off: patterns.cpat(cid, off + d, t), buf, i)
-            if ln < n - i:
-                ln -= ln % 8
+            ln -= ln % 8
             if ln <= 0:
                 push("G", 0, 0, n - i)
                 break
